@@ -211,7 +211,7 @@ class Census:
                     {"cond": pp(cond), "ops": [pp(o) for o in ops],
                      "facts": sorted(_ppf(f) for f in facts)[:40], "inherited": [repr(x) for x in assume]})
 
-    def guard_refuted(self, an, cs):
+    def guard_refuted(self, an, cs, _dissolved=False):
         """a panic call (the failure arm of an `assert!` / `debug_assert!`) every edge into which is taken only when a comparison
         has a value the order reasoning refutes: the assertion always holds, the call is not reachable"""
         pv = Prover(an)
@@ -246,9 +246,47 @@ class Census:
                 if len(conds) >= 1 and all(self.refuted_at_callers(an.fn, c_, tv_) for c_, tv_ in conds[:1]):
                     n += 1
                     continue
+                # (d) the asserted condition speaks about the result of a pure in-crate function: judged with that function
+                #     described by its cases (what it returns under which condition on its arguments)
+                if not _dissolved and self.refuted_by_callee_cases(an, cs, conds):
+                    n += 1
+                    continue
                 return None
             n += 1
         return "asserted condition proven: each of the %d edges into the failure arm contradicts the order facts established before it" % n
+
+    def refuted_by_callee_cases(self, an, cs, conds):
+        from .engine import Program
+        F = self.F
+        prog = program(F)
+        names = set()
+        for c_, _ in conds:
+            for x in c_.subterms():
+                if x.op == "call" and isinstance(x.args[0], str):
+                    lf = F.fn(x.args[0])
+                    if lf is not None and lf.get("kind") != "Closure" and lf["id"] != an.fn["id"]:
+                        names.add(lf["qual"])
+        if not names:
+            # ... or the facts say how a pure in-crate function answered (`verify(x)?` went through): its cases say what that implies
+            edge_facts = set()
+            for p_ in an.preds[cs.block]:
+                if (p_, cs.block) in an.out_states:
+                    edge_facts |= set(an.out_states[(p_, cs.block)].facts)
+            for f in edge_facts:
+                if f[0] == "var" and isinstance(f[1], Term) and f[1].op == "call" and isinstance(f[1].args[0], str):
+                    lf = F.fn(f[1].args[0])
+                    if lf is not None and lf.get("kind") != "Closure" and lf["id"] != an.fn["id"]:
+                        names.add(lf["qual"])
+        if not names or len(names) > 2:
+            return False
+        try:
+            an2 = Program(F, dissolve=tuple(sorted(names))).analysis(an.fn, an.assume)
+        except Exception:
+            return False
+        if an2 is None or cs.block not in an2.entry:
+            return an2 is not None and cs.block not in an2.entry and cs.block in an2.preds     # not reachable once the cases are explicit
+        cs2 = [c for c in an2.calls() if c.block == cs.block]
+        return bool(cs2) and self.guard_refuted(an2, cs2[0], _dissolved=True) is not None
 
     def refuted_at_callers(self, fn, cond, truth, depth=0):
         """the boolean term `cond` over fn's parameters cannot have the value `truth` at any call site of the (private) function fn"""
